@@ -481,6 +481,8 @@ class ModuleNormalizer:
                 h, recv, skip = r
                 if _is_generator(h) or h is node:
                     return c
+                if any((isinstance(n, ast.Name) and n.id == h.name) or (isinstance(n, ast.Attribute) and n.attr == h.name) for b_ in h.body for n in ast.walk(b_)):
+                    return c  # recursive helper (calls or passes itself): left as a function
                 e = _expr_of_body(h.body)
                 if e is None:
                     return c
@@ -697,8 +699,8 @@ class ModuleNormalizer:
                             self.log.append(f"{q}: inlined single-use temporary {v}")
                             return True
                         continue
-                    if isinstance(e, ast.Constant):
-                        continue
+                    if isinstance(e, (ast.Constant, ast.List, ast.Dict, ast.Set, ast.ListComp, ast.DictComp, ast.SetComp)):
+                        continue  # a literal is a new object, not a name for an existing one
                     if isinstance(e, ast.Name) and (len(stores.get(e.id, [])) > 1):
                         continue
                     # parts must be stable: base names bound at most once (parameters: never), attribute paths never stored
